@@ -80,6 +80,11 @@ func values(tier string) []interface{} {
 		}
 	}
 	V = append(V, keyed...)
+	// a key whose value is null (a nil key field), next to the same object without a key and with a real one;
+	// other values than v's so that these objects differ from the ones above in more than the key
+	nullKeyed := []interface{}{obj{"__key": nil, "v": float64(0)}, obj{"__key": nil, "v": float64(1)}, obj{"__key": nil}, obj{"v": float64(0)}, obj{"v": float64(1)}}
+	V = append(V, nullKeyed...)
+	V = append(V, seqs([]interface{}{nullKeyed[0], nullKeyed[1], nullKeyed[3], keyed[0]}, 2)[1:]...)
 	// depth 2: arrays of keyed objects (reorders, duplicates, insertions, deletions), arrays mixing kinds,
 	// objects holding arrays / objects (fields appearing and disappearing with complex values)
 	V = append(V, seqs(keyed, 3)[1:]...)
@@ -261,5 +266,5 @@ func run(rp *explore.Report, tier string) {
 
 func init() {
 	reg.Register(&reg.Harness{Property: "C03", Name: "c03/roundtrip", Level: "exploration", Run: run,
-		Rule: "all ordered pairs (old,new) over a generated alphabet V of JSON values (scalars, arrays with duplicates, objects over field names {a,b,$,0,f,g}, __key objects, arrays of keyed objects up to length 3-4, nested arrays/objects, fields appearing with complex values), plus for every array value the pairs in which new shares old's backing storage (reslice to every shorter length, extension into spare capacity, same-length alias; top level / under a field / as an element); oracle: Diff nil => stripped values equal, else Go merge.Merge and an independent implementation of the documented client format applied to StripKey(old) with the JSON-decoded delta give StripKey(new); Diff(x,x)=nil; arguments unmodified; delta JSON-stable. non-trivial = pairs with a non-empty delta"})
+		Rule: "all ordered pairs (old,new) over a generated alphabet V of JSON values (scalars, arrays with duplicates, objects over field names {a,b,$,0,f,g}, __key objects incl. a null key next to the key-less and the keyed object, arrays of keyed objects up to length 3-4, nested arrays/objects, fields appearing with complex values), plus for every array value the pairs in which new shares old's backing storage (reslice to every shorter length, extension into spare capacity, same-length alias; top level / under a field / as an element); oracle: Diff nil => stripped values equal, else Go merge.Merge and an independent implementation of the documented client format applied to StripKey(old) with the JSON-decoded delta give StripKey(new); Diff(x,x)=nil; arguments unmodified; delta JSON-stable. non-trivial = pairs with a non-empty delta"})
 }
